@@ -63,7 +63,7 @@ def copy_sig(r):
 def _dump_resolver(fn):
     import inspect
     try:
-        sig = inspect.signature(fn)
+        sig = inspect.signature(fn, follow_wrapped=False)   # what a call of `fn` binds, not what it decorates
     except (ValueError, TypeError):      # TypeError: not a callable at all
         return {"uninspectable": True, "params": []}
     return {"uninspectable": False,
